@@ -249,6 +249,17 @@ def main(argv):
 
 
 if __name__ == '__main__':
-    import signal
+    import signal, threading
     signal.signal(signal.SIGPIPE, signal.SIG_DFL)
-    sys.exit(main(sys.argv[1:]))
+    # terms can nest deeply (phi chains): run with a generous recursion limit on a big stack
+    sys.setrecursionlimit(50000)
+    threading.stack_size(512 * 1024 * 1024)
+    rc = [2]
+
+    def _go():
+        rc[0] = main(sys.argv[1:])
+    th = threading.Thread(target=_go)
+    th.start()
+    th.join()
+    sys.stdout.flush()
+    os._exit(rc[0])
